@@ -1,4 +1,6 @@
 import Tengo.Proofs.C09Eq
+import Tengo.Proofs.C09EqFuel
+import Tengo.Proofs.C09Closed
 /-!
 C09 — the executable equality of the heap model decides the relation `Eqv` of the freeze theorems.
 
@@ -56,6 +58,44 @@ theorem step_eq_decides_eqv {h : Heap} (c : Closed h) (w : HdrOk h) {x y n m : N
   rw [hr] at d1 d2
   cases r <;> simp_all
 
+/-- The fuel of the model always suffices: a value that is finite at all (`Fin h n v` for some `n`: acyclic, no
+retired object, no incomparable scalar) has height at most `objs.length` (no object occurs twice on a path). -/
+theorem fin_bounded_by_objects {h : Heap} {n : Nat} {v : Val} (f : Fin h n v) : Fin h h.objs.length v :=
+  fin_objs_length f
+
+/-- `equalsN` with the fuel of the model decides `Eqv` on all finite values — no fuel hypothesis left. -/
+theorem equalsN_model_fuel_decides_eqv {h : Heap} (c : Closed h) (w : HdrOk h) {n m : Nat} {a b : Val}
+    (fa : Fin h n a) (fb : Fin h m b) :
+    (equalsN h.fuel h a b = some true ↔ Eqv h a b) ∧ (equalsN h.fuel h a b = some false ↔ ¬ Eqv h a b) :=
+  equalsN_decides_eqv c w (fin_objs_length fa) fb (by simp only [Heap.fuel]; omega)
+
+/-- The `eq` operation of the model decides `Eqv` on all finite values. -/
+theorem step_eq_decides_eqv_finite {h : Heap} (c : Closed h) (w : HdrOk h) {x y n m : Nat} {a b : Val}
+    (hx : h.regs[x]? = some a) (hy : h.regs[y]? = some b) (fa : Fin h n a) (fb : Fin h m b) :
+    (step h (.eq x y) = (h, .bool true) ↔ Eqv h a b) ∧ (step h (.eq x y) = (h, .bool false) ↔ ¬ Eqv h a b) :=
+  step_eq_decides_eqv c w hx hy (fin_objs_length fa) fb (by simp only [Heap.fuel]; omega)
+
+/-! ### The hypothesis `Closed` is an invariant of the operations -/
+
+/-- Every operation sequence keeps the heap well-formed (`Closed`: every header's store is allocated) … -/
+theorem closed_invariant {h : Heap} (c : Closed h) (ops : List Op) : Closed (run h ops) :=
+  Tengo.Proofs.C09Closed.run_closed ops c
+
+/-- … so every heap the operations can build from the empty heap is: the hypothesis `Closed` of `freeze_spec`,
+`freeze_equal_and_pure_partial`, `freeze_establishes`, of the equality theorems above and of the copy theorems of
+C10 holds of all of them. -/
+theorem closed_of_built (ops : List Op) : Closed (run {} ops) :=
+  Tengo.Proofs.C09Closed.closed_of_ops ops
+
+/-- Instance: `freeze` on any heap built by operations, without a well-formedness hypothesis. -/
+theorem freeze_on_built_heaps (ops : List Op) {x : Nat} {v : Val} (hx : (run {} ops).regs[x]? = some v) :
+    (step (run {} ops) (.freeze x)) = (run {} ops, .fuel) ∨
+    ∃ v', (step (run {} ops) (.freeze x)).2 = .pushed 1 ∧
+      (step (run {} ops) (.freeze x)).1.regs[(run {} ops).regs.length]? = some v' ∧
+      Ext (run {} ops) (step (run {} ops) (.freeze x)).1 ∧ Eqv (step (run {} ops) (.freeze x)).1 v' v ∧
+      DeepImm (step (run {} ops) (.freeze x)).1 false v' ∧ Closed (step (run {} ops) (.freeze x)).1 :=
+  freeze_equal_and_pure_partial hx (closed_of_built ops)
+
 /-! ### Non-vacuity -/
 
 /-- `[[1], 2]`, a copy of it, and `[[1], 3]` in handles @3, @4, @7. -/
@@ -80,6 +120,10 @@ example : step exEq (.eq 3 7) = (exEq, .bool false) ∧ ¬ Eqv exEq (.ref 1) (.r
   have d := step_eq_decides_eqv exEq_closed exEq_hdrOk (x := 3) (y := 7) exEq_regs.1 exEq_regs.2.2 exEq_fin.1 exEq_fin.2.2 (by decide)
   have e : step exEq (.eq 3 7) = (exEq, .bool false) := by decide
   exact ⟨e, d.2.mp e⟩
+
+/-- `step_eq_decides_eqv_finite` needs no bound: any witness of finiteness will do (here a wasteful 40). -/
+example := step_eq_decides_eqv_finite exEq_closed exEq_hdrOk (x := 3) (y := 7) exEq_regs.1 exEq_regs.2.2
+  (exEq_fin.1.mono (by decide : 2 ≤ 40)) exEq_fin.2.2
 
 /-- Why `HdrOk` is needed: a header of length 2 over a one-cell backing array (no operation builds it) compares
 unequal to a length-1 header over the same cell, while their windows are the same. -/
